@@ -80,7 +80,7 @@ pub fn examine(ctx: &Ctx, out: &mut Out, text: &str, gtext: &str, origin: &str) 
     let mut got: Vec<Canonical<ConstrainedSubst<ChalkIr>>> = vec![];
     let q = peeled.clone();
     let mut calls = 0;
-    let _ = catch(std::panic::AssertUnwindSafe(|| {
+    let _ = with_default_budgets(|| catch(std::panic::AssertUnwindSafe(|| {
         db.solve_multiple(&q, &mut |r, _more| {
             calls += 1;
             if let SubstitutionResult::Definite(c) | SubstitutionResult::Ambiguous(c) = r {
@@ -89,7 +89,7 @@ pub fn examine(ctx: &Ctx, out: &mut Out, text: &str, gtext: &str, origin: &str) 
             // (a floundered stream yields `Floundered` for as long as the callback asks)
             calls < 6
         })
-    }));
+    })));
     for c in &got {
         check_one(out, &format!("slg-multiple {}", label0), &peeled, &c.binders, &c.value.subst, "enumerated");
     }
